@@ -26,6 +26,13 @@ CLAIMED["C17"] = {
   "technique": "Lean 4 proof by case analysis over the regenerated lookup tables (all integers) + differential table sweep + real-delivery probes",
 }
 
+CLAIMED["C01"] = {
+  "text": "Machine-checked proof (Lean 4, invariant by induction over the step relation) on a step-per-shared-memory-operation model of HalfLock for ANY number of threads, ANY finite scripts of read sections and write/store calls and EVERY interleaving: a pinned snapshot is never released, every snapshot is released at most once, only by the writer that swapped it out, only after its barrier saw both reader slots idle, never by a reader (delivery); the published snapshot is never a released one. Tied to /repo by (a) the SeqCst side condition and the exact list of atomic call sites regenerated from half_lock.rs, and (b) lock-step differential execution: the real HalfLock runs under a deterministic scheduler behind cfg(sighook_verif) and every shim-visible operation (site, ordering, location, value) is compared with the model replaying the same schedule; the C01 trace monitor also runs on the implementation trace.",
+  "design_ref": "DESIGN.md section 6 C01",
+  "note": "Trusted: Lean kernel + audited axioms; SC memory model for the half-lock (all its atomics are SeqCst, checked; DRF-SC trusted); shim reports every shared-memory operation of half_lock.rs; deliveries are simulated calls of the real dispatcher; counters modelled as Nat (MAX_GUARDS abort unreachable below isize::MAX threads). The registry-level statement (actions inside snapshots, Arc release) is covered through the registry step-level correspondence, see DESIGN.md.",
+  "technique": "Lean 4 inductive invariant over an N-thread step machine + lock-step model/implementation correspondence under a deterministic scheduler",
+}
+
 NOT_YET = {}
 ALL = ["C%02d" % i for i in range(1, 19)]
 
